@@ -272,6 +272,11 @@ func (fx *FnExec) applyContract(st *State, in *ssa.Call, fn *ssa.Function, fc *F
 		}
 	}
 	oldAlloc := st.alloc
+	if touch["@alloc"] {
+		na := eng.fresh(st, "alloc", SInt)
+		st.assume("(>= " + na + " " + st.alloc + ")")
+		st.alloc = na
+	}
 	for _, c := range names {
 		switch {
 		case c == "@alloc":
@@ -307,11 +312,6 @@ func (fx *FnExec) applyContract(st *State, in *ssa.Call, fn *ssa.Function, fc *F
 		if srt, isGhost := eng.ghosts[g]; isGhost {
 			st.ghost[g] = eng.fresh(st, "g_"+g, srt)
 		}
-	}
-	if touch["@alloc"] {
-		na := eng.fresh(st, "alloc", SInt)
-		st.assume("(>= " + na + " " + st.alloc + ")")
-		st.alloc = na
 	}
 	// results
 	var res []Val
